@@ -183,6 +183,7 @@ type PathResult struct {
 	Undecided []string       // reasons the analysis could not decide (state cap, ...)
 	Labels    map[string]int // per label count of distinct target instructions
 	Blocks    int
+	MaxStates int // largest number of distinct states kept for one block (the cap is maxStatesPerBlock)
 }
 
 type PathWitness struct {
@@ -209,8 +210,8 @@ type pathEngine struct {
 	loadUse map[*ssa.Function]map[string]map[*ssa.BasicBlock]bool // per function: load key -> blocks from which a use of the load is reachable
 }
 
-const maxStatesPerBlock = 3000
-const maxSteps = 400000
+const maxStatesPerBlock = 20000
+const maxSteps = 3000000
 
 // RunPath evaluates a rule over all paths of r.Fn.
 func RunPath(p *Prog, r *PathRule) *PathResult {
@@ -703,6 +704,9 @@ func (e *pathEngine) run(f *ssa.Function, st0 *PState) []*PState {
 				continue
 			}
 			m[k] = true
+			if len(m) > e.res.MaxStates {
+				e.res.MaxStates = len(m)
+			}
 			e.res.Blocks++
 			st.trace = append(st.trace, fmt.Sprintf("%d", b.Index))
 			if len(st.trace) > 30 {
